@@ -237,6 +237,7 @@ func init() {
 			return in.C.Sub(in.clock(), in.term(t[1]))
 		},
 		"(*math/big.Int).Mod": xBigMod,
+		"(*math/big.Int).Mul": xBigMul,
 		"bytes.Index":      xBytesIndex,
 		"bytes.IndexByte":  xBytesIndexByte,
 		"internal/bytealg.IndexByte": xBytesIndexByte,
@@ -690,7 +691,7 @@ func xBytesIndexByte(in *Interp, fn *ssa.Function, a []Value) Value {
 }
 
 // (*math/big.Int).Mod with a symbolic operand: multi-word division is data-dependent code the executor
-// cannot follow; the result is HAVOCKED -- an arbitrary value below the modulus with a non-zero top word
+// cannot follow; the result is an UNINTERPRETED function of the operands -- an arbitrary value below the modulus with a non-zero top word
 // (an over-approximation except for results shorter than the modulus, which are not explored).  With
 // concrete operands the real code runs.
 func xBigMod(in *Interp, fn *ssa.Function, a []Value) Value {
@@ -718,16 +719,83 @@ func xBigMod(in *Interp, fn *ssa.Function, a []Value) Value {
 	cells := make([]Value, n)
 	hi := make([]*smt.Term, n)
 	mhi := make([]*smt.Term, n)
+	// the result is an uninterpreted function of the operands (so that the same reduction of the same
+	// value gives the same result), otherwise unconstrained
+	xs, _ := x.Obj.Cells[x.Off+1].(Slice)
+	var xhi []*smt.Term
+	for i := xs.Len - 1; i >= 0; i-- {
+		xhi = append(xhi, in.term(xs.Obj.Cells[xs.Off+i]))
+	}
 	for i := 0; i < n; i++ {
-		w := in.newVar("bigmod", 64)
+		mhi[n-1-i] = in.term(ms.Obj.Cells[ms.Off+i])
+	}
+	var r *smt.Term
+	if len(xhi) == 0 {
+		return in.callFunction(fn, a, nil)
+	}
+	r = in.C.UF(fmt.Sprintf("big.mod_%d_%d", xs.Len, n), 64*n, in.C.Concat(xhi...), in.C.Concat(mhi...))
+	for i := 0; i < n; i++ {
+		w := in.C.Extract(r, 64*i+63, 64*i)
 		cells[i] = w
 		hi[n-1-i] = w
-		mhi[n-1-i] = in.term(ms.Obj.Cells[ms.Off+i])
 	}
 	in.assume(in.C.Ult(in.C.Concat(hi...), in.C.Concat(mhi...)))
 	in.assume(in.C.Not(in.C.Eq(hi[0], in.C.Const(64, 0))))
 	obj := in.newObject(cells, "bigmod")
 	in.storeAt(z.Obj, z.Off, in.C.False, types.Typ[types.Bool])
+	in.storeAt(z.Obj, z.Off+1, Slice{Obj: obj, Off: 0, Len: n, Cap: n, Stride: 1}, types.NewSlice(types.Typ[types.Uint]))
+	return z
+}
+
+// (*math/big.Int).Mul with a symbolic operand: the magnitude is an uninterpreted function of the operands
+// (len(x)+len(y) words; the top word may be zero, then the next one is assumed non-zero), the sign is exact.
+// Keeps symbolic-by-symbolic multiplication out of the path condition; concrete operands run the real code.
+func xBigMul(in *Interp, fn *ssa.Function, a []Value) Value {
+	z, x, y := a[0].(Pointer), a[1].(Pointer), a[2].(Pointer)
+	if z.Obj == nil || x.Obj == nil || y.Obj == nil {
+		return in.callFunction(fn, a, nil)
+	}
+	words := func(p Pointer) ([]*smt.Term, bool) {
+		s, ok := p.Obj.Cells[p.Off+1].(Slice)
+		if !ok {
+			return nil, true
+		}
+		conc := true
+		var hi []*smt.Term
+		for i := s.Len - 1; i >= 0; i-- {
+			t := in.term(s.Obj.Cells[s.Off+i])
+			if !t.IsConst() {
+				conc = false
+			}
+			hi = append(hi, t)
+		}
+		return hi, conc
+	}
+	xh, xc := words(x)
+	yh, yc := words(y)
+	if (xc && yc) || len(xh) == 0 || len(yh) == 0 {
+		return in.callFunction(fn, a, nil)
+	}
+	X, Y := in.C.Concat(xh...), in.C.Concat(yh...)
+	lx, ly := len(xh), len(yh)
+	if lx > ly || (lx == ly && X.ID > Y.ID) {
+		X, Y, lx, ly = Y, X, ly, lx
+	}
+	n := lx + ly
+	r := in.C.UF(fmt.Sprintf("big.mul_%d_%d", lx, ly), 64*n, X, Y)
+	top := in.C.Extract(r, 64*n-1, 64*n-64)
+	if in.branch(in.C.Eq(top, in.C.Const(64, 0)), "big.Int.Mul top word") {
+		n--
+		in.assume(in.C.Not(in.C.Eq(in.C.Extract(r, 64*n-1, 64*n-64), in.C.Const(64, 0))))
+	}
+	cells := make([]Value, n)
+	for i := 0; i < n; i++ {
+		cells[i] = in.C.Extract(r, 64*i+63, 64*i)
+	}
+	xn, yn := in.boolTerm(x.Obj.Cells[x.Off]), in.boolTerm(y.Obj.Cells[y.Off])
+	neg := in.C.Not(in.C.Eq(xn, yn))
+	obj := in.newObject(cells, "bigmul")
+	in.storeAt(z.Obj, z.Off, neg, types.Typ[types.Bool])
 	in.storeAt(z.Obj, z.Off+1, Slice{Obj: obj, Off: 0, Len: n, Cap: n, Stride: 1}, types.NewSlice(types.Typ[types.Uint]))
 	return z
 }
